@@ -29,6 +29,8 @@ var verifRefSpellings = []string{
 	"../x.json#/components/schemas/A",
 	"/abs/x.json#/a",
 	"http://h.example/x.json#/components/schemas/A",
+	"http://h.example/root/doc.json#/components/schemas/A", // the root's own path on another host
+	"//h.example/root/doc.json#/components/schemas/A",
 }
 
 // verifDocWithRef builds a root document (JSON text) with one reference at the chosen position.
@@ -78,7 +80,7 @@ func verifExpectedRead(base *url.URL, ref string) string {
 	return base.ResolveReference(ru).String()
 }
 
-//verif:harness id=C11 tier=quick,thorough witness=end bounds="one reference at each of 14 positions (the ten resolver kinds, a schema inside a header, a parameter inside a callback, array items, media-type schema) x 18 spellings (relative, ./, ../, d/../, absolute path, file://, http(s)://, scheme-relative, empty fragment, internal missing, malformed fragment, the root's own name) x entry point in {LoadFromData, LoadFromDataWithPath, LoadFromURI} x IsExternalRefsAllowed; every read goes through ReadFromURIFunc"
+//verif:harness id=C11 tier=quick,thorough witness=end bounds="one reference at each of 14 positions (the ten resolver kinds, a schema inside a header, a parameter inside a callback, array items, media-type schema) x 20 spellings (relative, ./, ../, d/../, absolute path, file://, http(s)://, scheme-relative, empty fragment, internal missing, malformed fragment, the root's own name, the root's own path on another host) x entry point in {LoadFromData, LoadFromDataWithPath, LoadFromURI} x IsExternalRefsAllowed; every read goes through ReadFromURIFunc"
 func verifH_C11_reads() {
 	slot := verifChoose("slot", 14)
 	ref := verifRefSpellings[verifChoose("spelling", len(verifRefSpellings))]
